@@ -430,6 +430,21 @@ def _group_nodes_in_scope(scope: ast.AST) -> Mapping[type, Sequence[ast.AST]]:
     return MappingProxyType(node_types)
 
 
+def _candidate_types(template: Template) -> type | Tuple:
+    """Node classes that can match the template at all, to avoid matching every node against it."""
+    if isinstance(template, type):
+        return template
+    if isinstance(template, tuple):  # alternatives
+        return tuple(_candidate_types(alternative) for alternative in template)
+    if isinstance(template, Wildcard):  # what the wildcard stands for decides
+        if template.template is object:  # any piece of code: the expressions and the statements
+            return (ast.expr, ast.stmt)
+        return _candidate_types(template.template)
+    if isinstance(template, ast.AST):
+        return type(template)
+    return ()  # lists and sets stand for lists of nodes, constants for leaf values
+
+
 def walk_wildcard(
     scope: ast.AST, node_template: Template, ignore: Collection[str] = ()
 ) -> Iterable[Tuple[ast.AST, ...]]:
@@ -450,7 +465,7 @@ def walk_wildcard(
 
     yielded_nodes = set()
     for template in node_template:
-        type_matcher = template if isinstance(template, type) else type(template)
+        type_matcher = _candidate_types(template)
         nodes = itertools.chain.from_iterable(
             children
             for child_type, children in types_in_scope.items()
